@@ -66,4 +66,13 @@ CLAIMS = {
         design_ref='DESIGN.md section 6 C11; rules R-CB, R-SRCSTORE, R-COMPLETE',
         note='"Exactly one call per decoded symbol" is argued from once-per-site + empty-slot guards + monotone tables. ' + BASE,
         technique='call-site rules with value-flow of the callback result; store classification'),
+    'C09': dict(
+        text='Rejection direction of parameter validation for all codecs in scope: the guards that hold on every OK path of '
+             'of_set_fec_parameters (collected inter-procedurally: dispatcher restricted to the codec id, codec routine with '
+             'store-forwarded fields, matrix constructor through its non-NULL returns) imply the advertised limits; plus the argument '
+             'guards (session, role, ESI range, NULL buffers) of the dispatch layer and encoders with pure failing edges.',
+        design_ref='DESIGN.md section 6 C09; rules R-PARAM, R-APIGUARD, R-RETDEF',
+        note='Decides "outside the limits => rejected" and the argument guards; does NOT decide "inside the limits => OK and usable". '
+             'One known finding (RS-2^m accepts n > 2^m-1; cannot be repaired without breaking a pinned test). ' + BASE,
+        technique='inter-procedural guard collection + interval reasoning + region enumeration over compared constants'),
 }
